@@ -32,7 +32,7 @@ def gen_stage(ck, scratch, sets):
     os.makedirs(outdir, exist_ok=True)
     rc, outp = ck.run([gc, "-plugin", plugin, "-out", outdir, "-sets", ",".join(sets)], cwd=scratch.dir, timeout=600)
     if rc != 0:
-        ck.log(outp[-3000:])
+        ck.log(outp[:1500] + "\n...\n" + outp[-3000:])
         raise ck.Internal("the working-tree plugin could not generate the matrix schema (%s); see C12" % ",".join(sets))
     with open(os.path.join(outdir, "manifest.json")) as fh:
         man = json.load(fh)
@@ -55,16 +55,26 @@ def write_imports(scratch, engine, pkgs, man=None, pkgname="main"):
 
 
 def write_reqdata(scratch, man, tag):
-    """Go file embedding the FileDescriptorProtos that were sent to the plugin (C19 compares the registered descriptors with them)."""
+    """Go file embedding the FileDescriptorProtos that were sent to the plugin (C19 compares the registered descriptors with
+    them) and the Go variables of the extension fields that generated files declare, by full name."""
     if not man or not man.get("requests"):
         return None
     p = scratch.path("reqdata_gen_%s.go" % tag)
+    exts = man.get("extensions") or []
+    pk = sorted(set(e["pkg"] for e in exts))
     with open(p, "w") as fh:
-        fh.write("package main\n\n// requestFiles maps a proto file name to the serialized FileDescriptorProto handed to the plugin.\nvar requestFiles = map[string]string{\n")
+        fh.write("package main\n\nimport (\n\t\"google.golang.org/protobuf/reflect/protoreflect\"\n")
+        for i, q in enumerate(pk):
+            fh.write('\tx%d "%s"\n' % (i, q))
+        fh.write(")\n\n// requestFiles maps a proto file name to the serialized FileDescriptorProto handed to the plugin.\nvar requestFiles = map[string]string{\n")
         for name, path in sorted(man["requests"].items()):
             with open(path, "rb") as rf:
                 b = rf.read()
             fh.write("\t%s: \"%s\",\n" % (json.dumps(name), "".join("\\x%02x" % c for c in b)))
+        fh.write("}\n\n// extVars: the E_ variable protoc-gen-go's naming rules give each extension field declared by a generated file.\n")
+        fh.write("var extVars = map[string]protoreflect.ExtensionType{\n")
+        for e in exts:
+            fh.write('\t%s: x%d.%s,\n' % (json.dumps(e["full_name"]), pk.index(e["pkg"]), e["go_name"]))
         fh.write("}\n")
     return p
 
